@@ -132,11 +132,73 @@ def contract(render, tree, method, failback):
     return 'rendered', None, None
 
 
+def handbuilt_trees():
+    """Trees an application builds itself: column types given as SQLAlchemy types, statements with optional parts left out."""
+    import sqlalchemy as sa
+    from mindsdb_sql.parser import ast as A
+    from mindsdb_sql.parser.ast.create import TableColumn
+    cols = lambda: [TableColumn('a', type=sa.Integer), TableColumn('b', type=sa.SmallInteger), TableColumn('c', type='varchar', length=10),
+                    TableColumn('d', type=sa.Boolean), TableColumn('e', type=sa.BigInteger, is_primary_key=True), TableColumn('f', type=sa.Float, default='1.5'),
+                    TableColumn('g', type=sa.Text, nullable=False)]
+    return [
+        ('create-table-sa-types', lambda: A.CreateTable(name=A.Identifier('t'), columns=cols())),
+        ('create-table-replace', lambda: A.CreateTable(name=A.Identifier('s.t'), columns=cols()[:3], is_replace=True)),
+        ('create-table-as-select', lambda: A.CreateTable(name=A.Identifier('t'), from_select=A.Select(targets=[A.Star()], from_table=A.Identifier('u')))),
+        ('insert-no-columns', lambda: A.Insert(table=A.Identifier('t'), values=[[A.Constant(1), A.Constant('x')]])),
+        ('insert-empty-row', lambda: A.Insert(table=A.Identifier('t'), columns=[A.Identifier('a')], values=[[]])),
+        ('select-no-from', lambda: A.Select(targets=[A.Constant(1), A.Function('now', args=[])])),
+        ('select-empty-in', lambda: A.Select(targets=[A.Star()], from_table=A.Identifier('t'), where=A.BinaryOperation('in', args=[A.Identifier('a'), A.Tuple([])]))),
+        ('join-without-on', lambda: A.Select(targets=[A.Star()], from_table=A.Join(left=A.Identifier('t1'), right=A.Identifier('t2'), join_type='join'))),
+        ('update-no-where', lambda: A.Update(table=A.Identifier('t'), update_columns={'a': A.Constant(1)})),
+        ('delete-no-where', lambda: A.Delete(table=A.Identifier('t'))),
+    ]
+
+
+def run_handbuilt(ctx, renders):
+    acc = ctx.acc
+    for k, (label, mk) in enumerate(handbuilt_trees()):
+        if not ctx.mine(k):
+            continue
+        # the tree's own SQL string is one of the two things the default call hands out: producing it must not change the tree either
+        try:
+            t0 = mk()
+        except Exception:
+            acc.count('handbuilt_tree_not_constructible')
+            continue
+        old = monitors.struct(t0)
+        try:
+            t0.to_string()
+        except Exception:
+            pass
+        acc.ev()
+        acc.count('handbuilt_calls')
+        if monitors.struct(t0) != old:
+            from vf.props.c01 import first_diff
+            acc.fail({'kind': 'tree-mutated', 'path': first_diff(old, monitors.struct(t0))[:120], 'by': 'own-sql-string'}, {'tree': label})
+        for name in NAMES:
+            for method, failback in (('get_string', True), ('get_string', False), ('get_exec_params', True), ('get_exec_params', False)):
+                t = mk()
+                if (k + len(name)) % 2:
+                    try:
+                        t.to_string()           # printed before it is rendered, as a caller that logs the statement does
+                    except Exception:
+                        pass
+                acc.ev()
+                acc.count('calls')
+                acc.count('handbuilt_calls')
+                outcome, sig, det = contract(renders[name], t, method, failback)
+                if outcome == 'violation':
+                    acc.fail(dict(sig, statement=type(t).__name__), dict(det, tree=label, render_dialect=name, method=method, failback=failback))
+                elif outcome == 'unsupported':
+                    acc.count('unsupported_off')
+
+
 def run_shard(ctx):
     from mindsdb_sql import parse_sql
     from mindsdb_sql.render.sqlalchemy_render import SqlalchemyRender
     acc = ctx.acc
     renders = {n: SqlalchemyRender(n) for n in NAMES}
+    run_handbuilt(ctx, renders)
     base = [('deep', s) for s in DEEP] + [('extra', s) for s in EXTRA] + base_statements(ctx.seed, 3000 if ctx.tier == 'quick' else 30000)
     base += gram_statements(ctx.seed, 2500 if ctx.tier == 'quick' else 15000)
     idx = -1
